@@ -159,7 +159,7 @@ def hansenlaw_transform(image, dr=1, direction='inverse', hold_order=0,
         raise ValueError('Wrong direction "{}" (must be "forward" or '
                          '"inverse").'.format(direction))
 
-    image = np.atleast_2d(image)   # 2D input image
+    image = np.atleast_2d(image).astype(float)   # 2D input image
     aim = np.empty_like(image)  # Abel transform array
     rows, cols = image.shape
 
